@@ -1,20 +1,26 @@
 """C07 -- observe client: notifications in freshness order, termination signalled once.
 
-1. TLC checks spec/ObserveClient.tla exhaustively: every sequence of <= MaxArr
-   arrivals after the first response (serial numbers mod 16 scaled x 2^20 onto
-   the 24-bit space, gaps {0,127,128,129} s, CON/NON, terminating response /
-   ICMP error / give-up at every position, late notifications) against the
-   clauses of spec/ObserveClientObs.tla.
-2. TLC -simulate behaviours become schedules that are executed on the real
-   stack through register_callback/register_errback of a plain Request
-   (harness/drive.py) and compared event by event (DRIFT on mismatch).
-3. Randomised schedules over the full 24-bit space (differences 2^23-1, 2^23,
-   2^23+1, wrap-around at 2^24, times around 128 s after the last accepted one,
-   same-MID duplicates) on the callback interface, and on the async iterator /
-   BlockwiseRequest (harness/observedrive.py: ready and busy consumers,
-   back-to-back datagrams).
+1. TLC checks spec/ObserveClient.tla exhaustively in two configurations: the plain
+   Request (every sequence of <= MaxArr arrivals after the first response: serial
+   numbers mod 16 scaled x 2^20 onto the 24-bit space, gaps {0,127,128,129} s,
+   CON/NON, 2.xx codes, terminating response / ICMP error / give-up at every
+   position, late notifications) and the BlockwiseRequest layer on top of it
+   (block-wise notification bodies being completed while more arrives), against
+   the clauses of spec/ObserveClientObs.tla.
+2. TLC -simulate behaviours of both become schedules that are executed on the real
+   stack (harness/drive.py callbacks of a plain Request; harness/observedrive.py
+   callbacks of a BlockwiseRequest with a peer that answers the block requests)
+   and compared event by event (DRIFT on mismatch).
+3. Directed and randomised schedules over the full 24-bit space (differences
+   2^23-1, 2^23, 2^23+1, wrap-around at 2^24, times around 128 s after the last
+   accepted one, same-MID duplicates, codes 2.01..2.05, other requests and a second
+   observation next to the live one, token counter crossing 2^8 / 2^16 and coming
+   round) on the callback interface, and on the async iterator / BlockwiseRequest
+   (ready and busy consumers, late registration, back-to-back datagrams, block-wise
+   notification bodies answered at once / late / after the next arrivals).
 4. All recorded traces are validated in one batch by TLC against
-   spec/ObserveClientTrace.tla, which evaluates the clauses at every step."""
+   spec/ObserveClientTrace.tla, which evaluates the clauses at every step; loop
+   exceptions and logged errors of the executions are reported as DRIFT."""
 
 import json
 import os
@@ -99,7 +105,7 @@ def behaviour_to_schedule(beh):
             bw = e0["x"] == "bwcb"
             steps.append({"at": e0["t"], "do": "submit", "q": 1, "r": 1, "con": con, "observe": 0, "f": 0.0})
         elif e0["k"] == "rx" and e0["q"] == 0 and e0["cls"] == "resp":
-            fetch.append({"delay": e0["t"] - t_req, "more": False, "plen": 10, "ty": e0["ty"]})
+            fetch[-1] = {"delay": e0["t"] - t_req, "more": False, "plen": 10, "ty": e0["ty"]}
         elif e0["k"] == "rx":
             for e in emit:
                 if e["k"] == "rx":
@@ -114,12 +120,13 @@ def behaviour_to_schedule(beh):
         for e in emit:
             if e["k"] == "tx" and e["cls"] == "req" and e["q"] == 0:
                 t_req = e["t"]
+                fetch.append(None)  # stays unanswered if the behaviour never completes it (ICMP error, or cut)
         expected += [project(e) for e in emit]
     if bw:
         for x in steps:
             x.pop("r", None)
         return {"iface": "bwcb", "con": con, "start": "resp", "delay": 0, "tuning": dict(TUNING), "mid0": 300, "tok0": 77,
-                "steps": steps[1:] or [{"at": 8, "do": "wait"}], "fetch": fetch, "fetch_default": None,
+                "steps": steps[1:] or [{"at": 8, "do": "wait"}], "fetch": fetch,
                 # a behaviour that stops while a block is outstanding is cut there (the request would give up 6 s later)
                 "horizon": 0 if beh[-1][1].get("fetch") else None}, expected
     return {"tuning": dict(TUNING), "mid0": 300, "tok0": 77, "nremotes": 2, "steps": steps, "horizon": None}, expected
